@@ -20,6 +20,8 @@ C13_REQS = [
         {'id': 'equation', 'what': 'v^e == a^m * b^s * c (mod N) gates acceptance and depends on v, e, s, the base, the attribute, b, c, N',
          'gate_callee': ['PartialEq'], 'cover': ['self.v', 'self.e', 'self.s', 'a_bases', 'message', 'pk.b', 'pk.c', 'pk.N']},
         {'id': 'e-lower', 'what': 'e > 2^(le-1) gates acceptance', 'gate_callee': ['PartialOrd'], 'cover': ['self.e', 'a:le'], 'pure': ['self.e']},
+        {'id': 'e-range', 'what': 'e is compared with both ends of its range (2^(le-1) < e < 2^le): two order comparisons of e with powers of 2^le', 'gate_callee': ['PartialOrd'],
+         'cover': ['self.e', 'a:le'], 'pure': ['self.e'], 'min_gates': 2},
         {'id': 'attribute-range', 'what': 'the attribute is compared with 2^lm before acceptance (0 <= m < 2^lm)',
          'gate_callee': ['PartialOrd', 'Ord::cmp', 'Iterator::any', 'Iterator::all', 'significant_bits'], 'gate_op': ['Lt', 'Le', 'Gt', 'Ge'],
          'quantifier': 'forall', 'cover': ['message', 'a:lm'], 'pure': ['message']},
@@ -28,6 +30,8 @@ C13_REQS = [
         {'id': 'equation', 'what': 'v^e == prod a_i^m_i * b^s * c (mod N) gates acceptance',
          'gate_callee': ['PartialEq'], 'cover': ['self.v', 'self.e', 'self.s', 'a_bases', 'messages', 'pk.b', 'pk.c', 'pk.N']},
         {'id': 'e-lower', 'what': 'e > 2^(le-1) gates acceptance', 'gate_callee': ['PartialOrd'], 'cover': ['self.e', 'a:le'], 'pure': ['self.e']},
+        {'id': 'e-range', 'what': 'e is compared with both ends of its range (2^(le-1) < e < 2^le), as in the single-attribute verifier', 'gate_callee': ['PartialOrd'],
+         'cover': ['self.e', 'a:le'], 'pure': ['self.e'], 'min_gates': 2},
         {'id': 'attribute-range', 'what': 'every attribute is compared with 2^lm before acceptance',
          'gate_callee': ['PartialOrd', 'Ord::cmp', 'Iterator::any', 'Iterator::all', 'significant_bits'], 'gate_op': ['Lt', 'Le', 'Gt', 'Ge'],
          'quantifier': 'forall', 'cover': ['messages', 'a:lm'], 'pure': ['messages']},
@@ -203,6 +207,9 @@ C14_REQS = [
          'cover': ['self.range_proofs_mi', 'signer_pk.N', 'a:lm']},
         {'id': 'pok-r', 'what': 'PoK of the commitment randomness gates acceptance', 'gate_callee': ['PartialEq'],
          'cover': ['self.proof_r', 'a_bases', 'signer_pk.b', 'signer_pk.N']},
+        {'id': 'trusted-pair', 'what': 'a trusted commitment is accepted only together with its commitment key (presence of the two is compared): otherwise '
+                                       'the equality proof between C and the trusted commitment is skipped and the issuer signs against an unrelated trusted commitment',
+         'gate_op': ['Eq', 'Ne'], 'gate_callee': ['PartialEq'], 'cover': ['C_trusted', 'commitment_pk']},
     ]),
 ]
 
@@ -414,6 +421,8 @@ def rule_every_leaf_gates(ctx, cfg='prod-all', which=('pok', 'zkpok')):
                     if g.kind == 'deleg' or not gate_is_comparison(g):
                         continue      # a `match` / `if let` on an enclosing Option or enum reads a discriminant, not the leaf
                     for a in g.all_atoms():
+                        if a[0] in ('len', 'narrow'):
+                            continue      # the length of a list is not the value of one of its elements' fields
                         s = strip(a)
                         if s[0] == 'p' and s[1] == kself:
                             q = tuple(x for x in s[2] if x != '0')
@@ -429,9 +438,89 @@ def rule_every_leaf_gates(ctx, cfg='prod-all', which=('pok', 'zkpok')):
                      body.span, fact={'accept_paths': len(aps), 'paths_without_gate': fails, 'type': ty}, expected='gates acceptance')
 
 
+# ---------------------------------------------------------------------------------- list fields have the expected number of entries
+def vec_field_paths(prog, root, max_depth=6):
+    """paths of the list-typed (Vec) fields of a serialised proof type, not descending into the elements of a list"""
+    out = []
+    st = [((), root, 0)]
+    while st:
+        path, tname, depth = st.pop()
+        adt = prog.adts.get(tname)
+        if adt is None or depth > max_depth:
+            continue
+        for v in adt['variants']:
+            for f in v['fields']:
+                ty = f['ty']
+                while ty.startswith('std::option::Option<'):
+                    ty = ty[len('std::option::Option<'):-1]
+                if ty.startswith('std::vec::Vec<'):
+                    out.append(path + (f['name'],))
+                elif ty in prog.adts:
+                    st.append((path + (f['name'],), ty, depth + 1))
+    return sorted(out)
+
+
+def _crosses_option(prog, root, lp):
+    tname = root
+    for f in lp:
+        adt = prog.adts.get(tname)
+        if adt is None:
+            return False
+        ty = None
+        for v in adt['variants']:
+            for fl in v['fields']:
+                if fl['name'] == f:
+                    ty = fl['ty']
+        if ty is None:
+            return False
+        if ty.startswith('std::option::Option<'):
+            return True
+        tname = ty
+    return False
+
+
+def rule_list_fields_counted(ctx, specs, cfg='prod-all', rule='RF-K'):
+    """A proof carries lists (responses, per-attribute sub-proofs) whose entries the verifier walks along the list of hidden positions; entries
+    beyond that are never looked at.  Per list field and per accept path: some comparison every path to the accept passes depends on the
+    *length* of the list - otherwise the proof with extra entries appended verifies as well (an altered proof that is accepted)."""
+    prog, ga = ctx.prog(cfg), ctx.gates(cfg)
+    n = 0
+    for vsuffix, root in specs:
+        body = resolve_fn(prog, vsuffix)
+        kself = body.param_index('self')
+        aps = ga.accept_paths(body.path)
+        for vp in vec_field_paths(prog, root):
+            n += 1
+            bad = []
+            optional = _crosses_option(prog, root, vp)
+            for ap in aps:
+                ok = False
+                for g in ap['gates']:
+                    if g.kind == 'deleg' or not gate_is_comparison(g) or not (g.dom or optional):
+                        continue      # (a part of the proof that is present only in one mode of use is examined in that mode only)
+                    for a in g.all_atoms():
+                        if a[0] not in ('len', 'narrow'):
+                            continue
+                        st = strip(a)
+                        if st[0] == 'p' and st[1] == kself:
+                            q = tuple(x for x in st[2] if x != '0')
+                            if q and q == vp[:len(q)]:
+                                ok = True
+                    if ok:
+                        break
+                if not ok:
+                    bad.append(ap['block'])
+            yield Ob(rule, '%s#entries:%s' % (body.path, '.'.join(vp)), not bad,
+                     'the number of entries of the list is compared with what the statement requires on every accept path (appended entries are not ignored)',
+                     body.span, fact={'accept_paths': len(aps), 'paths_without_a_length_comparison': bad[:6]}, expected='length compared')
+    yield Ob(rule, 'crate#list-fields', n >= 1, 'list fields examined', '', fact=n, expected='>= 1', nontrivial=False)
+
+
 # ---------------------------------------------------------------------------------- canonical representatives
 def _leaf_of(atom, kself, leaves):
     """the serialised leaf path a parameter atom of `self` stands for (the atom may name a whole sub-structure: then every leaf below it)"""
+    if atom[0] in ('len', 'narrow') or (atom[0] in ('nr', 'mod', 'h') and atom[1][0] in ('len', 'narrow')):
+        return []          # the length of a list is not the value of one of its elements' fields
     st = strip(atom)
     if st[0] != 'p' or st[1] != kself:
         return []
@@ -620,6 +709,15 @@ C15_REQS = [
                    'n_signed_messages']},
         {'id': 'range-proof-e', 'what': 'range proof on e gates acceptance with bounds from le', 'gate_callee': ['PartialEq'],
          'cover': ['self.range_proof_e', 'commitment_pk.N', 'a:le']},
+        {'id': 'revealed-range', 'what': 'every revealed attribute is compared with 2^lm before acceptance (as in verify_multiattr: otherwise a proof made from '
+                                         '(v * a^k, m + k * e) verifies for a value that was never signed)',
+         'gate_callee': ['PartialOrd', 'Ord::cmp', 'Iterator::any', 'Iterator::all', 'significant_bits'], 'gate_op': ['Lt', 'Le', 'Gt', 'Ge'],
+         'quantifier': 'forall', 'cover': ['messages', 'a:lm'], 'pure': ['messages']},
+        {'id': 'revealed-count', 'what': 'the number of revealed attributes plus the number of hidden positions is compared with the attribute count',
+         'gate_op': ['Eq', 'Ne'], 'cover': ['len(messages)', 'len(unrevealed_message_indexes)', 'n_signed_messages']},
+        {'id': 'hidden-positions-in-range', 'what': 'every hidden position is compared with the attribute count', 'gate_op': ['Lt', 'Le', 'Gt', 'Ge'],
+         'gate_callee': ['Iterator::any', 'Iterator::all'], 'quantifier': 'forall', 'cover': ['unrevealed_message_indexes', 'n_signed_messages'],
+         'pure': ['unrevealed_message_indexes', 'n_signed_messages']},
         {'id': 'pok-mi', 'any_path': True, 'what': 'per-attribute PoK gates acceptance with base g_i', 'gate_callee': ['PartialEq'],
          'cover': ['self.proofs_commited_mi', 'commitment_pk.g_bases', 'commitment_pk.h', 'commitment_pk.N', 'unrevealed_message_indexes']},
     ]),
